@@ -211,34 +211,69 @@ fn nontrivial(t: &[u8], c: &Cfg, sc: &Scan) -> bool {
     raw != sc.markers.len() || t.iter().enumerate().any(|(i, &b)| b == c.quote && i % 64 == 63 && i + 1 < t.len())
 }
 
+/// All placements of one window.
+fn sweep_window(engs: &[Engine], space: &str, c: &Cfg, other: u8, s: &[u8], rep: &mut Report) {
+    let mut buf = Vec::with_capacity(300);
+    let mut nt = false;
+    for &p in &OFFSETS {
+        for carry in [false, true] {
+            for &post in &SUFFIXES {
+                place(&mut buf, c, other, carry, p, s, post);
+                check_text(engs, space, &buf, c, rep);
+                if !nt {
+                    let sc = scan(&buf, c);
+                    nt = nontrivial(&buf, c, &sc);
+                }
+            }
+        }
+    }
+    if nt {
+        rep.distinct(&(c, s));
+    }
+    if s.len() == 5 && s[0] == c.quote && s[4] == c.newline && s[2] == c.delimiter && s[1] == other && s[3] == c.quote {
+        rep.sample(|| json!({"family":space,"cfg":c.to_json(),"window":show(s),"placements":"15 offsets x carry in/out x suffix {0,1,70}","engines":engs.iter().map(|e|e.name()).collect::<Vec<_>>()}));
+    }
+}
+
+/// Every window of length 0..=maxlen.
 fn sweep(ctx: &Ctx, engs: &[Engine], name: &str, c: Cfg, maxlen: u32, rep: &mut Report) {
     let other = c.other(b'o');
     let alpha_bytes = [[other], [c.delimiter], [c.quote], [c.newline]];
     let alpha: Vec<&[u8]> = alpha_bytes.iter().map(|a| &a[..]).collect();
     let space = format!("sweep/{name}");
-    let r = par_strings(ctx, &space, &alpha, maxlen, |s, _idx, rep| {
-        let mut buf = Vec::with_capacity(300);
-        let mut nt = false;
-        for &p in &OFFSETS {
-            for carry in [false, true] {
-                for &post in &SUFFIXES {
-                    place(&mut buf, &c, other, carry, p, s, post);
-                    check_text(engs, &space, &buf, &c, rep);
-                    if !nt {
-                        let sc = scan(&buf, &c);
-                        nt = nontrivial(&buf, &c, &sc);
-                    }
-                }
-            }
+    let r = par_strings(ctx, &space, &alpha, maxlen, |s, _idx, rep| sweep_window(engs, &space, &c, other, s, rep));
+    rep.merge(r);
+}
+
+/// Every window of length exactly `len`, under a wall budget: windows not started
+/// before the budget expires are skipped and the sub-space is reported as capped
+/// (never a verdict).
+fn sweep_exact(ctx: &Ctx, engs: &[Engine], name: &str, c: Cfg, len: u32, budget_s: f64, rep: &mut Report) {
+    let other = c.other(b'o');
+    let sym = [other, c.delimiter, c.quote, c.newline];
+    let space = format!("sweep/{name}/len{len}");
+    let n = pow(4, len);
+    let skipped = std::sync::atomic::AtomicU64::new(0);
+    let r = par_range_in(ctx, &space, n, 4096, |i, rep| {
+        if ctx.start.elapsed().as_secs_f64() > budget_s {
+            skipped.fetch_add(1, std::sync::atomic::Ordering::Relaxed);
+            return;
         }
-        if nt {
-            rep.distinct(&(c, s));
+        let mut s = [0u8; 16];
+        let mut x = i;
+        for k in (0..len as usize).rev() {
+            s[k] = sym[(x % 4) as usize];
+            x /= 4;
         }
-        if s.len() == 5 && s[0] == c.quote && s[4] == c.newline && s[2] == c.delimiter && s[1] == other && s[3] == c.quote {
-            rep.sample(|| json!({"family":space,"cfg":c.to_json(),"window":show(s),"placements":"15 offsets x carry in/out x suffix {0,1,70}","engines":engs.iter().map(|e|e.name()).collect::<Vec<_>>()}));
-        }
+        sweep_window(engs, &space, &c, other, &s[..len as usize], rep);
     });
     rep.merge(r);
+    let sk = skipped.into_inner();
+    if sk == 0 {
+        rep.mark_exhaustive(&space, &format!("all {n} windows of length {len} over 4 symbols"));
+    } else {
+        rep.caps.push(format!("{space}: wall budget of {budget_s:.0} s reached, {sk} of {n} windows of length {len} not explored (all shorter windows were)"));
+    }
 }
 
 /// Sub-corpus (~200 class strings, each already placed) used for the
@@ -387,17 +422,22 @@ fn explore(ctx: &Ctx, rep: &mut Report) {
     }
     let hi = Cfg { delimiter: 0x80, quote: 0xff, newline: 0x00 };
     let tsv = Cfg { delimiter: b'\t', quote: b'\'', newline: b'\r' };
-    let main_len = ctx.pick(8, 11);
+    let main_len = ctx.pick(8, 10);
     let side_len = ctx.pick(6, 8);
     sweep(ctx, &engs, "csv", Cfg::CSV, main_len, rep);
     sweep(ctx, &engs, "high-bytes-0x80-0xff-0x00", hi, side_len, rep);
     sweep(ctx, &engs, "tab-apostrophe-cr", tsv, side_len, rep);
     quote_runs(ctx, &engs, rep);
     config_families(ctx, &engs, rep);
+    if ctx.thorough() {
+        // length 11 last, under a wall budget (it is 3/4 of the whole cost)
+        let budget = ctx.arg("--len11-budget").and_then(|s| s.parse().ok()).unwrap_or(660.0);
+        sweep_exact(ctx, &engs, "csv", Cfg::CSV, 11, budget, rep);
+    }
     rep.extra.insert("offsets".into(), json!(OFFSETS));
     rep.extra.insert("suffixes".into(), json!(SUFFIXES));
     rep.extra.insert("carry_in".into(), json!(["outside", "inside (quote at bit 63 of a preceding full chunk)"]));
-    rep.extra.insert("window_length".into(), json!({"csv": main_len, "other configurations": side_len}));
+    rep.extra.insert("window_length".into(), json!({"csv": if ctx.thorough() { 11 } else { main_len }, "other configurations": side_len}));
     rep.extra.insert("queries".into(), json!("markers/newlines rank1(i) for i in 0..=len+2 and usize::MAX; select1(k) for k in 0..=count+1 and usize::MAX; marker_count,row_count,is_empty"));
 }
 
